@@ -365,19 +365,29 @@ pub fn run_single(args: &Args) -> Report {
     let mut rep = Report::new("C11", "single");
     let deadline = Instant::now() + Duration::from_millis(args.budget_ms);
     let mut master = Rng::new(args.seed.wrapping_mul(131).wrapping_add(args.shard as u64));
-    let cfg = Cfg::single();
     let mut i = 0u64;
     let mut boundary = 0u64;
     while Instant::now() < deadline {
         i += 1;
         let mut rng = master.fork(i);
-        let trees = rng.range(2, 5);
-        let frames = trees * TREE_FRAMES - if rng.chance(1, 3) { rng.below(HUGE_FRAMES + 66) } else { 0 };
-        let sc = Scenario { frames, init: Init::FreeAll, cfg: cfg.clone(), place: default_place(i) };
-        let Ok(mut h) = Hist::start(frames, Init::FreeAll, &cfg, sc.place, i, Opts { compare_every: 64, ..Opts::default() }) else {
+        // one class with one slot - alone, or as one of the classes of the repository's classings (the other
+        // classes are configured but never requested: all calls are base-order requests of class `cls`, slot 0)
+        let cfg = Cfg::by_name(*rng.pick(&["single", "single", "simple", "movable", "zeroed"]), 1);
+        let cls = cfg.classes.iter().find(|(_, n)| *n >= 1).map(|(c, _)| *c).unwrap_or(0);
+        let trees = if rng.chance(1, 6) { rng.range(5, 12) } else { rng.range(2, 5) };
+        let frames = trees * TREE_FRAMES
+            - match rng.below(6) {
+                0 | 1 => rng.below(HUGE_FRAMES + 66),
+                2 => rng.below(TREE_FRAMES - 1),
+                _ => 0,
+            };
+        let init = if rng.chance(1, 3) { Init::AllocAll } else { Init::FreeAll };
+        let sc = Scenario { frames, init, cfg: cfg.clone(), place: default_place(i) };
+        let Ok(mut h) = Hist::start(frames, init, &cfg, sc.place, i, Opts { compare_every: 64, ..Opts::default() }) else {
             continue;
         };
-        let get = Op::Get { order: 0, class: 0, slot: Some(0) };
+        rep.tuples.insert(format!("cfg={} init={}", cfg.name, crate::sut::init_name(init)));
+        let get = Op::Get { order: 0, class: cls, slot: Some(0) };
         let oom_check = |h: &mut Hist, rep: &mut Report, sc: &Scenario, what: &str| {
             // the last call was a failing get: it must only fail if nothing is free
             let free = h.model.free_frames();
@@ -448,7 +458,7 @@ pub fn run_single(args: &Args) -> Report {
                         _ => if rng.chance(1, 2) { Some(0) } else { None },
                     };
                     if h.model.alloc[f] {
-                        h.exec(Op::Put { frame: f, order: 0, class: 0, slot });
+                        h.exec(Op::Put { frame: f, order: 0, class: cls, slot });
                     }
                 }
                 rep.tuples.insert(format!("one-tree frees: reserved_tree={} n_class={} mode={mode}", reserved.contains(&tree),
@@ -460,7 +470,7 @@ pub fn run_single(args: &Args) -> Report {
                 for f in frames_held {
                     if rng.below(100) < p {
                         let slot = if rng.chance(1, 2) { Some(0) } else { None };
-                        h.exec(Op::Put { frame: f, order: 0, class: 0, slot });
+                        h.exec(Op::Put { frame: f, order: 0, class: cls, slot });
                     }
                 }
             }
